@@ -361,6 +361,44 @@ def notdef_family_section(ctx):
         compare_masters(ctx, case, out, sparse=(1, ["A"]))
 
 
+def filter_list_length_section(ctx):
+    """masters whose libs list DIFFERENT NUMBERS of filters (one master lists propagateAnchors only, the other also
+    flattenComponents / decomposeComponents -- first or last in the family): the compile goes through and what is flattened
+    or decomposed is so in every master"""
+    import ufo2ft
+    KEY = "com.github.googlei18n.ufo2ft.filters"
+    rng = ctx.subrng("filter-list-length")
+    for i in range(ctx.budget(8, 24)):
+        lib = ["ufoLib2", "defcon"][i % 2]
+        longer = ["last", "first"][(i // 2) % 2]
+        extra = [{"name": "flattenComponents", "pre": True}, {"name": "decomposeComponents", "pre": True}][(i // 4) % 2]
+        fn = ["compileInterpolatableTTFs", "compileInterpolatableTTFsFromDS"][(i // 8) % 2]
+
+        def master(k, filters):
+            d = 20 * k
+            gl = [{"name": "a", "unicodes": [0x61], "width": Fr(500 + d), "components": [], "anchors": [("top", Fr(100), Fr(500 + d))],
+                   "contours": [[(Fr(0), Fr(0), "line"), (Fr(100 + d), Fr(0), "line"), (Fr(50), Fr(100 + d), "line")]]},
+                  {"name": "b", "unicodes": [0x62], "width": Fr(500), "contours": [], "anchors": [], "components": [("a", (Fr(1), Fr(0), Fr(0), Fr(1), Fr(10 + d), Fr(0)))]},
+                  {"name": "c", "unicodes": [0x63], "width": Fr(500), "contours": [], "anchors": [], "components": [("b", (Fr(1), Fr(0), Fr(0), Fr(1), Fr(5), Fr(d)))]}]
+            return {"glyphs": gl, "glyphOrder": ["a", "b", "c"], "kerning": {}, "groups": {}, "lib": {KEY: filters},
+                    "info": {"familyName": "Fam", "styleName": "Master%d" % k, "unitsPerEm": 1000, "ascender": 800, "descender": -200}}
+        short, long_ = [{"name": "propagateAnchors", "pre": True}], [{"name": "propagateAnchors", "pre": True}, extra]
+        masters = [master(0, long_ if longer == "first" else short), master(1, short if longer == "first" else long_)]
+        ds, fonts = dsgen.make_designspace(rng, masters, lib)
+        case = {"function": fn, "lib": lib, "variant": "the %s master lists one filter more (%s)" % (longer, extra["name"]),
+                "filters": [m["lib"][KEY] for m in masters], "font": jsonable(masters[0])}
+        ctx.count(); ctx.klass("%s/filter lists of different length (longer %s)" % (fn, longer)); ctx.nontriv(("fll", i, ctx.scale))
+        try:
+            if fn == "compileInterpolatableTTFs":
+                out = list(ufo2ft.compileInterpolatableTTFs(fonts))
+            else:
+                out = [sd.font for sd in ufo2ft.compileInterpolatableTTFsFromDS(ds).sources]
+        except Exception as e:
+            ctx.spec_failure(case, "%s raised %s: %s\n%s" % (fn, type(e).__name__, e, traceback.format_exc()[-800:]))
+            continue
+        compare_masters(ctx, case, out)
+
+
 def two_sparse_layers_section(ctx):
     """TWO sparse layers in one family: one holds the base `a` of the mixed composite `c` (so `c` is interpolated there), the
     other holds only the unrelated glyph `b`.  A sparse master contains .notdef, the glyphs of its layer and what component
@@ -469,6 +507,7 @@ def explore(ctx):
     per_master_filter_section(ctx)
     notdef_family_section(ctx)
     two_sparse_layers_section(ctx)
+    filter_list_length_section(ctx)
     placeholders_section(ctx)
     nonmatching_section(ctx)
     import ufo2ft
